@@ -385,7 +385,9 @@ class SymNP(types.ModuleType):
         if _has_sym(x):
             def r(e):
                 if isinstance(e, Sym) and e.is_real:
-                    raise Unsupported("np.round of a symbolic real")
+                    if decimals:
+                        raise Unsupported("np.round(decimals != 0) of a symbolic real")
+                    return e.__round__()
                 return e
             return _map(r, x)
         if isinstance(x, _np.ndarray) and x.dtype == object:
